@@ -50,6 +50,10 @@ pub enum TapAction {
     Fail(io::Error),
     /// (writes only) write the first `n` bytes, then report this error
     Short(usize, io::Error),
+    /// (writes only) report success now; the controller performs the write later through
+    /// `Controller::deferred_write` (models the gap between the offset reservation and the
+    /// `pwrite` of a blocking closure that runs concurrently with other closures)
+    Defer,
 }
 
 fn tap(ev: &IoEvent) -> TapAction {
@@ -68,6 +72,7 @@ pub fn tap_simple(path: &Path, op: IoOp) -> Option<io::Error> {
     match tap(&ev) {
         TapAction::Proceed => None,
         TapAction::Fail(e) | TapAction::Short(_, e) => Some(e),
+        TapAction::Defer => None,
     }
 }
 
@@ -153,6 +158,11 @@ impl TapFile {
                 TapAction::Short(n, e) => {
                     let n = n.min(buf.len());
                     return self.file.write_all_at(&buf[..n], offset).and(Err(e));
+                }
+                TapAction::Defer => {
+                    let file = self.file.try_clone()?;
+                    with(|c| c.deferred_write(file, offset, buf.to_vec()));
+                    return Ok(());
                 }
             }
         }
